@@ -69,7 +69,8 @@ def classify(ctx, f, g, tree_l, got, ref, text):
     wide = any(kids(n) and len(kids(n)) > 28 for _, n in nodes(tree_l))
     if wide:
         # counterfactual: the same formula on the tree with every node's children beyond index 27 pruned is what the trie sees
-        return KF_TRIE if any(q[0] in ("forall", "exists") for q in R2.subformulas(f)) else None
+        if any(q[0] in ("forall", "exists") for q in R2.subformulas(f)):
+            return KF_TRIE
     if any(q[0] in ("forall", "exists") for q in R2.subformulas(f)):
         # repaired twin: with the drop-the-quantifier shortcut of ForallFormula.substitute_expressions patched out, does ISLa
         # agree with the specification?
